@@ -93,6 +93,11 @@ func run(pass *analysis.Pass) (any, error) {
 			continue
 		}
 
+		if types.Implements(typ, types.Universe.Lookup("error").Type().Underlying().(*types.Interface)) {
+			// fmt prefers Error() over String()
+			continue
+		}
+
 		if types.Implements(typ, knowledge.Interfaces["fmt.Stringer"]) {
 			replacement := &ast.CallExpr{
 				Fun: &ast.SelectorExpr{
@@ -105,7 +110,7 @@ func run(pass *analysis.Pass) (any, error) {
 		} else if types.Unalias(typ) == types.Universe.Lookup("string").Type() {
 			report.Report(pass, node, "the argument is already a string, there's no need to use fmt.Sprintf",
 				report.FilterGenerated(),
-				report.Fixes(edit.Fix("Remove unnecessary call to fmt.Sprintf", edit.ReplaceWithNode(pass.Fset, node, arg))))
+				report.Fixes(edit.Fix("Remove unnecessary call to fmt.Sprintf", edit.ReplaceWithNode(pass.Fset, node, code.ParenthesizeFor(pass, node, arg)))))
 		} else if typ.Underlying() == types.Universe.Lookup("string").Type() {
 			replacement := &ast.CallExpr{
 				Fun:  &ast.Ident{Name: "string"},
